@@ -24,8 +24,9 @@ MODEL_TARGETS = ["Model/C12Const.vo", "Model/C12Casts.vo"]
 RULE = ("constants: dense TSL layouts of rank 1-3 / depth 1-3 (bounds 1,2,3,4; lattice steps in a random order), "
         "non-dense and dynamic variants, element types i8/i16/i32, random contents; transpose_tuple on random "
         "rows x cols; programs: public functions with 2-4 memref arguments and optional allocations, 1-6 operations "
-        "(linalg.generic with 0-2 inputs and one output, plain / accumulating / in-place, memref.copy as an opaque "
-        "user), optionally inside scf.for loops, memory spaces assigned by the real set-memory-space (shared casts "
+        "(linalg.generic with 0-2 inputs and one or two outputs, each plain / accumulating / in-place, memref.copy as an "
+        "opaque user), optionally inside scf.for loops, optionally returning an allocation or an argument (the L1->L3 "
+        "cast HandleFuncReturns inserts is realised by a copy before func.return), memory spaces assigned by the real set-memory-space (shared casts "
         "per operand) or written explicitly as chains memory_space_cast -> layout_cast with several users; "
         "non-trivial = at least one cast realised with a copy; distinct = distinct program texts / (layout, data)")
 TRUSTED_BASE = [
@@ -51,6 +52,7 @@ CLASS_ACC = "accumulating_output_not_input"
 CLASS_SCOPE = "shared_cast_not_dominating"
 CLASS_WINDOW = "foreign_access_in_window"
 CLASS_NESTED = "copy_out_inside_loop"
+CLASS_NESTED_IN = "copy_in_inside_loop"
 
 
 def _prod(xs):
@@ -183,29 +185,52 @@ def gen_program(rng):
                 nin = rng.choice([0, 1, 1, 2])
                 ins = [rng.choice(pool if rng.random() < 0.7 else vals) for _ in range(nin)]
                 mode = rng.choice(["plain", "plain", "plain", "acc"]) if ins or rng.random() < 0.3 else "plain"
-                out.append(("gen", ins, o, mode))
+                if len(vals) > 1 and rng.random() < 0.15:
+                    # two outputs (distinct buffers), each plain or accumulating
+                    o2 = rng.choice([v for v in vals if v != o])
+                    out.append(("gen2", ins, [o, o2], [mode, rng.choice(["plain", "acc"])]))
+                else:
+                    out.append(("gen", ins, o, mode))
         return out
 
-    return {"nargs": nargs, "nallocs": nallocs, "body": stmts(0, rng.choice([1, 2, 3, 4, 5, 6])), "style": style,
-            "chain": rng.random() < 0.5}
+    body = stmts(0, rng.choice([1, 2, 3, 4, 5, 6]))
+    # a returned memref (plain style only: set-memory-space tags the result L3 and HandleFuncReturns casts an
+    # L1 allocation to it; that cast is realised by an L3 allocation filled before func.return)
+    ret = None
+    if style == "plain" and rng.random() < 0.25:
+        ret = rng.choice(vals)
+    p = {"nargs": nargs, "nallocs": nallocs, "body": body, "style": style, "chain": rng.random() < 0.5}
+    if ret is not None:
+        p["ret"] = ret
+    return p
 
 
 def _generic(ins, out, mode, ty_of):
-    n = len(ins)
-    maps = ", ".join(["affine_map<(i) -> (i)>"] * (n + 1))
+    """out / mode: one output and its mode, or equally long lists of outputs and modes."""
+    outs = out if isinstance(out, list) else [out]
+    modes = mode if isinstance(mode, list) else [mode]
+    n, m = len(ins), len(outs)
+    maps = ", ".join(["affine_map<(i) -> (i)>"] * (n + m))
     ins_s = ""
     if n:
         ins_s = "ins(" + ", ".join(ins) + " : " + ", ".join(ty_of(v) for v in ins) + ") "
-    args = ", ".join([f"%x{k} : i32" for k in range(n)] + ["%o : i32"])
-    if mode == "acc":
-        first = "%x0" if n else "%o"
-        body = f"    %s = arith.addi {first}, %o : i32\n    linalg.yield %s : i32\n"
-    elif n:
-        body = "    linalg.yield %x0 : i32\n"
-    else:
-        body = "    %k = arith.constant 7 : i32\n    linalg.yield %k : i32\n"
+    onames = ["%o"] if m == 1 else [f"%o{j}" for j in range(m)]
+    args = ", ".join([f"%x{k} : i32" for k in range(n)] + [f"{o} : i32" for o in onames])
+    body, ys = "", []
+    for j, (o, md) in enumerate(zip(onames, modes)):
+        sfx = "" if m == 1 else str(j)
+        if md == "acc":
+            first = "%x0" if n else o
+            body += f"    %sc{sfx} = arith.addi {first}, {o} : i32\n"
+            ys.append(f"%sc{sfx}")
+        elif n:
+            ys.append("%x0")
+        else:
+            body += f"    %kc{sfx} = arith.constant 7 : i32\n"
+            ys.append(f"%kc{sfx}")
+    body += "    linalg.yield " + ", ".join(ys) + " : " + ", ".join(["i32"] * m) + "\n"
     return (f'  linalg.generic {{indexing_maps = [{maps}], iterator_types = ["parallel"]}} {ins_s}'
-            f"outs({out} : {ty_of(out)}) {{\n  ^bb0({args}):\n{body}  }}\n")
+            f"outs({', '.join(outs)} : {', '.join(ty_of(v) for v in outs)}) {{\n  ^bb0({args}):\n{body}  }}\n")
 
 
 def program_text(p):
@@ -219,7 +244,8 @@ def program_text(p):
     l1s = 'memref<16xi32, strided<[1]>, "L1">'
     aty = l3 if explicit else MT
     head = ", ".join(f"%a{i} : {aty}" for i in range(nargs))
-    lines = [f"func.func public @f({head}) {{\n"]
+    ret = p.get("ret")
+    lines = [f"func.func public @f({head}){' -> ' + MT if ret else ''} {{\n"]
     lines.append("  %c0 = arith.constant 0 : index\n  %c1 = arith.constant 1 : index\n")
     for i in range(nallocs):
         t = l1 if explicit else MT
@@ -235,8 +261,8 @@ def program_text(p):
 
         def collect(body):
             for s in body:
-                if s[0] == "gen":
-                    for v in list(s[1]) + [s[2]]:
+                if s[0] in ("gen", "gen2"):
+                    for v in list(s[1]) + (list(s[2]) if s[0] == "gen2" else [s[2]]):
                         if v not in used:
                             used.append(v)
                 elif s[0] == "for":
@@ -255,9 +281,9 @@ def program_text(p):
 
     def emit(body, ind):
         for s in body:
-            if s[0] == "gen":
+            if s[0] in ("gen", "gen2"):
                 ins = [alias.get(v, v) for v in s[1]]
-                out = alias.get(s[2], s[2])
+                out = [alias.get(v, v) for v in s[2]] if s[0] == "gen2" else alias.get(s[2], s[2])
                 lines.append(_generic(ins, out, s[3], lambda v: types[v]).replace("\n  ", "\n  " + ind).replace("  linalg", ind + "  linalg", 1))
             elif s[0] == "copy":
                 lines.append(f'{ind}  "memref.copy"({s[1]}, {s[2]}) : ({types[s[1]]}, {types[s[2]]}) -> ()\n')
@@ -269,7 +295,7 @@ def program_text(p):
                 lines.append(f"{ind}  }}\n")
 
     emit(p["body"], "")
-    lines.append("  func.return\n}\n")
+    lines.append(f"  func.return {ret} : {MT}\n}}\n" if ret else "  func.return\n}\n")
     return "".join(lines)
 
 
@@ -528,7 +554,7 @@ def _fill(out, ty, ind="  "):
 def gen_space_program(rng):
     """Function shapes that matter for memory spaces: private functions (arguments stay untagged), public
     functions with tagged / untagged arguments and untagged memref results, allocations."""
-    vis = rng.choice(["public", "public", "private"])
+    vis = rng.choice(["public", "public", "private", ""])      # "" = no keyword = public (MLIR default)
     nargs = rng.choice([0, 1, 2])
     tags = [rng.choice(["", "", ', "L3"', ', "L1"']) for _ in range(nargs)]
     result = rng.choice(["none", "alloc", "arg"]) if (nargs or True) else "none"
@@ -547,7 +573,8 @@ def gen_space_program(rng):
         body += _fill(f"%a{i}", f"memref<16xi32{tags[i]}>")
     ret = f"  func.return {'%m' if result == 'alloc' else '%a0'} : {rty}\n" if rty else "  func.return\n"
     sig = f" -> {rty}" if rty else ""
-    return {"text": f"func.func {vis} @f({args}){sig} {{\n{body}{ret}}}\n", "vis": vis, "tags": tags, "result": result}
+    return {"text": f"func.func {vis + ' ' if vis else ''}@f({args}){sig} {{\n{body}{ret}}}\n", "vis": vis, "tags": tags,
+            "result": result}
 
 
 def _space_of(t):
@@ -569,7 +596,7 @@ def check_space_program(sp):
             for v in op.operands:
                 if str(v.type).startswith("memref") and _space_of(v.type) != "ML1":
                     fails.append(("operand-not-L1", {"type": str(v.type)}))
-    if sp["vis"] == "public":
+    if sp["vis"] in ("public", ""):
         for b, a in zip(before, after):
             if a == "MNone":
                 fails.append(("signature-untagged", {"before": b, "after": a}))
@@ -664,11 +691,11 @@ def correspondence(ctx):
         except Exception as e:
             dis.append({"name": "L1:set-memory-space-raised", "case": sp["text"], "detail": repr(e)[:200]})
             continue
-        if sp["vis"] == "public":
+        if sp["vis"] in ("public", ""):
             for b, a in pairs:
                 sg.append(f"({b}, {a})")
                 sgm.append(sp["text"])
-        ctx.count({"spaces": sp["text"][:200]}, True, "sp" + sp["text"], f"L1:spaces:{sp['vis']}")
+        ctx.count({"spaces": sp["text"][:200]}, True, "sp" + sp["text"], f"L1:spaces:{sp['vis'] or 'default'}")
     text = ("From Snax Require Import Base.Prelude Model.Tsl Model.C12Const Model.C12Casts.\n"
             f"Definition cases := {coqlist(cases)}.\n"
             "Definition oeqb (a b : option (option (list Z))) := match a, b with Some (Some x), Some (Some y) => "
@@ -750,18 +777,19 @@ def _flat(items):
 def classify(progs):
     """For abstract `before` programs: (set of indices with bad_order, set with acc_output) by the Coq predicates."""
     if not progs:
-        return set(), set(), set(), set(), set()
+        return set(), set(), set(), set(), set(), set()
     text = ("From Snax Require Import Base.Prelude Model.C12Casts.\n"
             f"Definition cases := {coqlist(coq_items(b) for b in progs)}.\n"
             "Eval vm_compute in failing (fun b => negb (bad_order b)) cases.\n"
             "Eval vm_compute in failing (fun b => negb (acc_output b)) cases.\n"
             "Eval vm_compute in failing (fun b => negb (bad_scope b)) cases.\n"
             "Eval vm_compute in failing (fun b => negb (bad_window b)) cases.\n"
-            "Eval vm_compute in failing (fun b => negb (bad_nested b)) cases.\n")
+            "Eval vm_compute in failing (fun b => negb (bad_nested b)) cases.\n"
+            "Eval vm_compute in failing (fun b => negb (bad_nested_in b)) cases.\n")
     ok, out = vlib.coq_eval("c12cls", text, timeout=300)
     lists = vlib.parse_all_eval_lists(out)
-    if not ok or len(lists) != 5:
-        return set(), set(), set(), set(), set()
+    if not ok or len(lists) != 6:
+        return set(), set(), set(), set(), set(), set()
     return tuple(set(x) for x in lists)
 
 
@@ -799,7 +827,7 @@ def search(ctx, deep=False):
             fails = [("set-memory-space-raised", {"error": repr(e)[:200]})]
         for what, detail in fails:
             raw.append({"what": what, "space_program": sp, "text": sp["text"], "detail": detail, "klass": None})
-        ctx.count({"L2spaces": sp["text"][:200]}, True, "l2s" + sp["text"], f"L2:spaces:{sp['vis']}")
+        ctx.count({"L2spaces": sp["text"][:200]}, True, "l2s" + sp["text"], f"L2:spaces:{sp['vis'] or 'default'}")
     n = ctx.n(160, 4000) * (3 if deep else 1)
     pend = []
     for p in CORPUS + [gen_program(rng) for _ in range(n)]:
@@ -811,7 +839,7 @@ def search(ctx, deep=False):
         ctx.count({"L2": info["text"][:300], "failures": len(fails)}, True, "l2" + info["text"], f"L2:program:{p['style']}")
         for what, detail in fails:
             pend.append(({"what": what, "program": p, "text": info["text"], "detail": detail, "klass": None}, info["before"]))
-    bad, acc, scope, window, nested = classify([b for (_, b) in pend])
+    bad, acc, scope, window, nested, nested_in = classify([b for (_, b) in pend])
     for k, (f, _) in enumerate(pend):
         if f["what"] in ("observation", "final-contents"):
             if k in scope:
@@ -820,6 +848,8 @@ def search(ctx, deep=False):
                 f["klass"] = CLASS_WINDOW
             elif k in nested:
                 f["klass"] = CLASS_NESTED
+            elif k in nested_in:
+                f["klass"] = CLASS_NESTED_IN
         raw.append(f)
     seen, out = set(), []
     for f in sorted(raw, key=lambda f: len(f.get("text", ""))):
@@ -835,9 +865,11 @@ def replay_known(ctx, entry):
     fails, info = check_program(p)
     if not any(w in ("observation", "final-contents") for (w, _) in fails):
         return False
-    bad, acc, scope, window, nested = classify([info["before"]])
+    bad, acc, scope, window, nested, nested_in = classify([info["before"]])
     if entry["class"] == CLASS_NESTED:
         return 0 in nested
+    if entry["class"] == CLASS_NESTED_IN:
+        return 0 in nested_in and 0 not in nested and 0 not in window and 0 not in scope
     if entry["class"] == CLASS_WINDOW:
         return 0 in window
     if entry["class"] == CLASS_SCOPE:
@@ -879,8 +911,20 @@ def replay(ctx, obj):
     return 1 if res else 0
 
 
-# witnesses of the two known finding classes and regression shapes run first
+# witnesses of the known finding classes and regression shapes run first: write/read/write (former F22),
+# accumulation (former F23), fill then accumulate (no copy-in, single copy-out), read then write, first
+# writer inside a loop followed by a reader outside
 CORPUS = [
+    {"nargs": 1, "nallocs": 1, "style": "plain", "chain": False, "ret": "%m0",
+     "body": [("gen", ["%a0"], "%m0", "plain")]},
+    {"nargs": 3, "nallocs": 0, "style": "plain", "chain": False,
+     "body": [("gen2", ["%a0"], ["%a1", "%a2"], ["plain", "acc"])]},
+    {"nargs": 2, "nallocs": 0, "style": "plain", "chain": False,
+     "body": [("gen", [], "%a0", "plain"), ("gen", ["%a1"], "%a0", "acc")]},
+    {"nargs": 2, "nallocs": 0, "style": "explicit", "chain": True,
+     "body": [("gen", ["%a0"], "%a1", "plain"), ("gen", ["%a1"], "%a0", "acc")]},
+    {"nargs": 2, "nallocs": 0, "style": "explicit", "chain": False,
+     "body": [("for", 2, [("gen", [], "%a0", "plain")]), ("gen", ["%a0"], "%a1", "plain")]},
     {"nargs": 2, "nallocs": 0, "style": "plain", "chain": False,
      "body": [("gen", [], "%a0", "plain"), ("gen", ["%a0"], "%a1", "plain"), ("gen", [], "%a0", "plain")]},
     {"nargs": 2, "nallocs": 0, "style": "plain", "chain": False, "body": [("gen", ["%a0"], "%a1", "acc")]},
